@@ -68,7 +68,7 @@ class C08(Check):
         spec = models.gen_net(rng, n_nodes=rng.randint(2 if stratum == 'S-cols' else 1, 5), libs=libs,
                               hier=depth >= 1, max_edges=4,
                               # multi-operator nodes: the operator that receives the input is read by a second operator
-                              readouts=(0.4, 0.0) if rng.random() < 0.25 else None)
+                              readouts=(0.4, 0.0, 0.5) if rng.random() < 0.25 else None)
         if depth >= 1 and not spec.get('circuits'):
             depth = 0
         if depth == 2:
@@ -100,8 +100,8 @@ class C08(Check):
         inputs = []
         # every operator can be addressed; for a readout operator the addressed variable is the one it READS from its sibling
         # (the extrinsic input then ADDS to the sibling's contribution)
-        opnames = sorted({o for (_, o) in net.inst})
         reads_of = {o_['name']: o_.get('reads') for o_ in spec['ops'].values()}
+        opnames = sorted({o for (_, o), i_ in net.inst.items() if models.LIB[i_['lib']]['in'] or reads_of.get(o)})
         for i in range(rng.randint(1, 3)):
             opn = rng.choice(opnames)
             lib = [x['lib'] for (n, o), x in net.inst.items() if o == opn][0]
